@@ -423,6 +423,51 @@ def _accumulator(fn, name):
     return defs > 0
 
 
+def _flag_param_states(cfg, fn):
+    """{int* parameter: {node id: set of constants last stored through it on
+    the paths reaching the node ('?' = none / not a constant)}} - a forward
+    may-analysis over the CFG; used to recognise the success-flag
+    out-parameter convention (`*ok = 0` on failure, `*ok = 1` on success)."""
+    params = [p.n for p in fn.kids if p.k == "ParmVarDecl" and (p.t or "").replace(" ", "") == "int*"]
+    out = {}
+    for P in params:
+        def stored(e):
+            if e is None:
+                return None
+            val = None
+            for n in e.walk():
+                if n.k == "BinaryOperator" and n.v == "=":
+                    l = strip(n.kids[0])
+                    if l is not None and l.k == "UnaryOperator" and l.v == "*":
+                        b = strip(l.kids[0])
+                        if b is not None and b.k == "DeclRefExpr" and b.n == P:
+                            c = const_int(n.kids[1])
+                            val = c if c is not None else "?"
+            return val
+        IN = {cfg.entry.id: frozenset(["?"])}
+        work = [cfg.entry]
+        nodes = {cfg.entry.id: cfg.entry}
+        while work:
+            nd = work.pop()
+            cur = IN[nd.id]
+            v = stored(nd.e) if nd.kind != "branch" or nd.e is not None else None
+            o = frozenset([v]) if v is not None else cur
+            for _, s2 in nd.succ:
+                nodes[s2.id] = s2
+                old = IN.get(s2.id)
+                new = o if old is None else old | o
+                if new != old:
+                    IN[s2.id] = new
+                    work.append(s2)
+        res = {}
+        for nid, vals in IN.items():
+            nd = nodes[nid]
+            v = stored(nd.e)
+            res[nid] = frozenset([v]) if v is not None else vals
+        out[P] = res
+    return out
+
+
 def analyse_leak(tu):
     """Reported: a return, reached with an exception certainly pending (set on
     this path by a failing API / activation / PyErr_Set*), of (a) a constant
@@ -481,6 +526,27 @@ def analyse_leak(tu):
         vals = return_values(tu, name)
         if hits and boolean and not rt.endswith("*") and vals is not None and vals <= {0, 1}:
             continue        # 0 = failure, 1 = success
+        if hits:
+            # success-flag out-parameter: every return with an exception pending
+            # is made with *flag == 0, every other return with *flag != 0
+            flagged = False
+            for P, states in _flag_param_states(an.cfg, fn).items():
+                ok = True
+                for r in an.cfg.returns():
+                    pend = set(sget(an.flags_stmt(r, st), "x") for st in an.IN.get(r.id, ()))
+                    fv = states.get(r.id, frozenset(["?"]))
+                    if not pend:
+                        continue
+                    if pend == {"yes"}:
+                        ok = ok and fv == frozenset([0])
+                    elif "yes" in pend:
+                        ok = False
+                    else:
+                        ok = ok and "?" not in fv and 0 not in fv
+                if ok:
+                    flagged = True
+            if flagged:
+                continue
         for r, st2, kind in hits:
             findings.append(dict(
                 rule="EXC-LEAK", function=name, file=r.where.split(":")[0], line=r.line,
